@@ -6,5 +6,5 @@ cd "$(dirname "$(readlink -f "$0")")"
 for t in goto-cc goto-instrument cbmc gcc python3; do command -v $t >/dev/null || { echo "missing tool $t"; exit 1; }; done
 cbmc --version
 mkdir -p evidence replay
-./lib/check_hooks_inert.sh cc451d6 bf01b29
+./lib/check_hooks_inert.sh cc451d6 bf01b29 b6b3d93
 echo "setup ok"
